@@ -38,8 +38,8 @@ RULE = ("all 23 DIMSE message types x EVERY subset of the optional parameters of
         "enumerated exhaustively) x value profiles (all-minimum, all-maximum, odd-length/mid, seeded random with "
         "boundary bias: ids 0/65535, priority 0..2, UIDs 1..64 chars, AE titles 1..16, AT lists 1..40 tags, data "
         "sets 1..20000 bytes, plus one empty-but-present data set per subset) x fragment sizes (max PDU 0/7../65536); "
-        "plus sweeps of all 65536 Status / MessageID / MessageIDBeingRespondedTo values (and, thorough, every other "
-        "US parameter); distinct = SHA-1 of (type, command-set bytes, data-set bytes); non-trivial = the command set "
+        "plus sweeps of all 65536 Status values and every 8th MessageID / MessageIDBeingRespondedTo value (thorough: all "
+        "65536 values of every US parameter, Status on all 11 response types); distinct = SHA-1 of (type, command-set bytes, data-set bytes); non-trivial = the command set "
         "carries at least one parameter besides the message id")
 ASSUMPTIONS = [
     "vlib/dimse_ref.py is a faithful transcription of PS3.7 9.3/10.3/Annex C/Annex E (self-tested against the repo's "
@@ -223,7 +223,7 @@ def make_spec(t, mask, prof, rng):
 # ----------------------------------------------------------------------------- cases
 
 def gen_cases(tier, seed):
-    nprof = 24 if tier == "quick" else 600
+    nprof = 16 if tier == "quick" else 600
     per_case = 1600 if tier == "quick" else 20000
     cases = []
     for t in R.MESSAGE_TYPES:
@@ -235,9 +235,13 @@ def gen_cases(tier, seed):
     if tier == "thorough":
         sweeps += [k for k in US_FIELDS if k not in sweeps]
     for f in sweeps:
-        for lo in range(0, 0x10000, 2048):
-            cases.append({"kind": "sweep", "field": f, "lo": lo, "hi": lo + 2048, "seed": seed,
-                          "all_types": tier == "thorough" and f == "Status"})
+        # quick: every Status value, every 8th id value (residue chosen by the seed; 0 and 65535 are always
+        # covered by the all-minimum / all-maximum profiles); thorough: every value of every US parameter
+        step = 8 if (tier == "quick" and f != "Status") else 1
+        width = 2048 * step
+        for lo in range(0, 0x10000, width):
+            cases.append({"kind": "sweep", "field": f, "lo": lo + (seed % step), "hi": lo + width, "step": step,
+                          "seed": seed, "all_types": tier == "thorough" and f == "Status"})
     # interleave so that every worker shard gets a similar mix
     rng = rng_for(seed, PID, "order")
     rng.shuffle(cases)
@@ -265,8 +269,8 @@ def specs_of_case(case):
     elif kind == "sweep":
         f = case["field"]
         types = types_with(f)
-        for v in range(case["lo"], case["hi"]):
-            tl = types if case.get("all_types") else [types[(v + case["seed"]) % len(types)]]
+        for v in range(case["lo"], case["hi"], case.get("step", 1)):
+            tl = types if case.get("all_types") else [types[(v // case.get("step", 1) + case["seed"]) % len(types)]]
             for t in tl:
                 p = {f: v}
                 if R.MESSAGE_TYPES[t].direction == "RSP" or t == "C-CANCEL-RQ":
@@ -571,7 +575,8 @@ def run_case(case):
         counters["subsets_enumerated"] = case["hi"] - case["lo"]
     if case["kind"] == "sweep":
         counters[{"Status": "status_values_swept", "MessageID": "message_id_values_swept",
-                  "MessageIDBeingRespondedTo": "responded_to_values_swept"}.get(case["field"], "us_values_swept_" + case["field"])] = case["hi"] - case["lo"]
+                  "MessageIDBeingRespondedTo": "responded_to_values_swept"}.get(case["field"], "us_values_swept_" + case["field"])] = \
+            len(range(case["lo"], case["hi"], case.get("step", 1)))
     return {"key": sha(sorted(hashes)), "nontrivial": bool(hashes), "sample": sample,
             "violations": list(viols.values()), "counters": counters, "hashes": sorted(hashes), "inconclusive": None}
 
